@@ -331,6 +331,40 @@ func c03Explore(src *choice.Src) *core.Result {
 		}
 	}
 
+	// ---- sizes beyond 2^61: no store can exist, but the checkers must still accept the genuine proof ----
+	if src.Bool(1, 6) {
+		ht := int64(1)<<uint(src.Range(61, 62)) + int64(src.Uint64n(1<<61)) - 1
+		if src.Bool(1, 3) {
+			ht = 1<<63 - 1 - int64(src.Intn(3))
+		}
+		if ht < 2 {
+			ht = 1<<62 + 1
+		}
+		hv := ref.NewUniformTree(ht, ref.LeafHash([]byte("uniform")))
+		hn := int64(src.Uint64n(uint64(ht)))
+		if src.Bool(1, 3) {
+			hn = ht - 1
+		}
+		path := toTlog(hv.Path(hn, ht))
+		var cerr error
+		if c03Guard(res, "CheckRecord/huge", func() {
+			cerr = tlog.CheckRecord(tlog.RecordProof(path), ht, tlog.Hash(hv.MTH(ht)), hn, tlog.Hash(hv.Sub(0, 0)))
+		}) && cerr != nil {
+			res.Fail("C03", "check-accepts-proof", "CheckRecord rejects the genuine proof", "tree size %d (> 2^61), index %d, %d hashes: %v", ht, hn, len(path), cerr)
+		}
+		hm := 1 + int64(src.Uint64n(uint64(ht)))
+		proof := toTlog(hv.Proof(hm, ht))
+		if c03Guard(res, "CheckTree/huge", func() {
+			cerr = tlog.CheckTree(tlog.TreeProof(proof), ht, tlog.Hash(hv.MTH(ht)), hm, tlog.Hash(hv.MTH(hm)))
+		}) && cerr != nil {
+			res.Fail("C03", "check-accepts-proof", "CheckTree rejects the genuine proof", "tree size %d (> 2^61), older size %d, %d hashes: %v", ht, hm, len(proof), cerr)
+		}
+		res.Probes["checkers-on-sizes-above-2^61"]++
+		if ht > 1<<62 {
+			res.Probes["checkers-on-sizes-above-2^62"]++
+		}
+	}
+
 	// ---- proofs through the authenticating tile reader on a faulty transport ----
 	if !virtual && src.Bool(1, 2) {
 		h := src.Range(1, 6)
@@ -540,5 +574,5 @@ func init() {
 		Stub:        []string{"log store (HashReader) with faults", "corrupting channel between prover and verifier", "reference prover and RFC 9162 verifiers (oracles)"},
 		Assumptions: []string{"SHA-256 collision resistance", "reference implementations in sim/ref follow RFC 6962 2.1.1/2.1.2 and RFC 9162 2.1.3.2/2.1.4.2"},
 	})
-	core.ExpectProbes("C03", "virtual-tree-above-2^32", "mutation-left-tuple-valid", "proof-through-tile-reader")
+	core.ExpectProbes("C03", "checkers-on-sizes-above-2^62", "virtual-tree-above-2^32", "mutation-left-tuple-valid", "proof-through-tile-reader")
 }
